@@ -10,6 +10,11 @@ NOTE = ("Trusted: Lean 4.33 kernel; axioms propext/Classical.choice/Quot.sound o
         "-O2 build (thorough: also -O0 and -march=native, all alignments). Constants and README tables are regenerated from "
         "/repo on every run (tools/gen.py). Clauses not yet carried by a theorem are listed in the evidence under not_yet_proved.")
 CLAIMED = {
+ "C07": ("Per-value theorems over all 2^64 IEEE patterns: FULL precision reproduces every double bit for bit; special values "
+         "are exact in every precision; reduced precision moves the significand by at most half a unit (carry renormalised), "
+         "i.e. relative error <= 2^-mantissaBits, sign kept, infinity only from the largest exponent; automatic selection "
+         "never picks a mode whose bound exceeds the request. Real encoder bytes are compared with the model and decoded "
+         "values are checked by exact arithmetic", "Lean 4 proof on IEEE-754 bit patterns + differential correspondence"),
  "C10": ("Theorems: packed (row,col) round-trips for all 32-bit pairs and fails exactly above; the pair byte decodes to the "
          "encoded widths for all 72 combinations; the header decodes to (rows, cols) for all 64-bit counts and has the "
          "announced length; a cell write is read back and leaves every other cell, the header and the buffer length "
